@@ -55,8 +55,14 @@ pub open spec fn options_match_packet(o: Option<ClientOperationOptions>, p: Mqtt
     }
 }
 
+// Assumption A-CLOCK: instants handed in by the driver (Instant::now()) are at least 2^17 s (~36 h)
+// below the largest representable Instant, so `now + keep-alive` cannot overflow.
+pub open spec fn clock_ok(t: Instant) -> bool { t.nanos + 131072 * 1000000000 <= INSTANT_MAX_NANOS() }
+
 // per-operation part of the invariant (W4, W6, W8)
 pub open spec fn op_wf(op: ClientOperation) -> bool {
+    &&& op.slow_start_ack_value <= 1
+    &&& (op.ping_extension_base_timepoint matches Some(b) ==> clock_ok(b))
     &&& (op.packet_id matches Some(p) ==> p != 0 && takes_packet_id(*op.packet) && packet_id_field(*op.packet) == p)
     &&& options_untaken(op.options)
     &&& options_match_packet(op.options, *op.packet)
@@ -97,12 +103,25 @@ impl ProtocolState {
             }
     }
 
+    // W9 slow start: while the throttle is live the counter equals the number of contributing operations
+    pub open spec fn ss_active(&self) -> bool {
+        self.config.post_reconnect_queue_drain_policy == PostReconnectQueueDrainPolicy::OneAtATime
+            && self.state == ProtocolStateType::Connected
+    }
+    pub open spec fn ss_set(&self) -> Set<u64> {
+        self.operations@.dom().filter(|k: u64| self.operations@[k].slow_start_ack_value != 0)
+    }
+    pub open spec fn wf_slow_start(&self) -> bool {
+        self.ss_active() ==> self.slow_start_ack_count as nat == self.ss_set().len()
+    }
+
     pub open spec fn wf(&self) -> bool {
         &&& self.next_packet_id >= 1
         &&& self.next_operation_id >= 1
         &&& self.wf_ops()
         &&& self.wf_alloc()
         &&& self.wf_pending()
+        &&& self.wf_slow_start()
     }
 
     // W5 (kept separate: see finding F-TIMEOUT-CURRENT)
